@@ -8,6 +8,18 @@ from typedpy.commons import wrap_val
 from typedpy.structures import ClassReference, Field, StructMeta, TypedField
 
 
+def _named_copy(field, name):
+    """
+    A private shallow copy of an item / key / value / option field, called `name`.
+    The Field objects of a class definition are shared by all instances of the class (and by
+    all threads that use it): a validator must not rely on the name it left in them.
+    """
+    clone = object.__new__(field.__class__)
+    clone.__dict__.update(field.__dict__)
+    clone._name = name
+    return clone
+
+
 def _map_to_field(item):
     item = item[0] if isinstance(item, (list, tuple)) and len(item) == 1 else item
     if isinstance(item, StructMeta) and not isinstance(item, Field):
